@@ -42,6 +42,7 @@ class Q:
     __slots__ = ("n", "m")
     cnt = [0]
     atoms = []
+    atom_def = {}  # atom name -> the polynomial whose absolute value it stands for
 
     def __init__(self, n, m=None):
         self.n = n
@@ -122,6 +123,7 @@ class Q:
         A = z3.Real(name)
         symx.CTX.assume(A == z3.If(self.n >= 0, self.n, -self.n))
         Q.atoms.append(A)
+        Q.atom_def[name] = self.n
         return Q(A, self.m)
 
     def _cmp(self, o, f):
@@ -235,3 +237,4 @@ autoray.register_backend(FLog, "numpy")
 def reset():
     Q.cnt[0] = 0
     Q.atoms = []
+    Q.atom_def = {}
